@@ -58,7 +58,8 @@ def parse_junit(path):
         cases = []
         for c in s.findall("testcase"):
             tags = sorted(ch.tag for ch in c if ch.tag in ("failure", "error", "skipped"))
-            cases.append((c.get("name"), tags))
+            msgs = sorted((ch.get("message") or "") + " | " + (ch.text or "") for ch in c if ch.tag in ("failure", "error", "skipped"))
+            cases.append((c.get("name"), tags, msgs))
         out.append({"name": s.get("name"),
                     "tests": int(s.get("tests")), "failures": int(s.get("failures")), "errors": int(s.get("errors")),
                     "skipped": int(s.get("skipped")), "cases": cases})
